@@ -291,3 +291,42 @@ def truncate_with_tail(text, rng, wide=True):
         text = "".join(toks[:k])
     sep = rng.choice(["\n", " ", "\n\n", ""])
     return text.rstrip("\n") + sep + tail(rng, wide)
+
+
+def lex_fault_text(rng, tag="lexbad"):
+    """A file with invalid text (characters that are no token) in one of the places it can be: in the middle, as the
+    very first or the very last thing, a whole run of it, or nothing else at all."""
+    body = "PROGRAM %s VAR x : INT; END_VAR x := 1; END_PROGRAM\n" % tag
+    junk = rng.choice(["?", "$$$", "\x1a", "~~", "`", "@!", "\\"])
+    k = rng.randrange(6)
+    if k == 0:
+        return body.replace("x := 1;", "x := %s;" % junk)
+    if k == 1:
+        return junk + body                     # invalid text at byte offset 0
+    if k == 2:
+        return junk + "\n" + body
+    if k == 3:
+        return body + junk                     # ... at the end, no line break after it
+    if k == 4:
+        return junk * 3 + " " + junk + "\n"    # nothing but invalid text
+    return body.replace("VAR", junk + " VAR", 1)
+
+
+def many_decls_case(rng):
+    """Size instead of shape: hundreds of small declarations (type names, function blocks, variables, statements) within
+    64 KiB and without nesting - counters, index types and tables have their limits at 255 / 256 / 65535."""
+    n = rng.choice([100, 200, 254, 255, 256, 257, 300, 512, 600])
+    kind = rng.randrange(5)
+    if kind == 0:
+        return "TYPE\n" + "".join("  En%d : (a%d, b%d);\n" % (k, k, k) for k in range(n)) + "END_TYPE\n"
+    if kind == 1:
+        return "TYPE\n  Base0 : (x0, y0);\n" + "".join("  Al%d : %s;\n" % (k, "Base0" if k == 0 else "Al%d" % (k - 1)) for k in range(n)) + "END_TYPE\n"
+    if kind == 2:
+        return "TYPE\n" + "".join("  St%d : STRUCT m : INT; END_STRUCT;\n" % k for k in range(n)) + "END_TYPE\n" + \
+            "PROGRAM p\nVAR\n" + "".join("  v%d : St%d;\n" % (k, k) for k in range(n)) + "END_VAR\nEND_PROGRAM\n"
+    if kind == 3:
+        return "".join("FUNCTION_BLOCK F%d\nVAR x : INT; END_VAR\nx := %d;\nEND_FUNCTION_BLOCK\n" % (k, k) for k in range(n)) + \
+            "PROGRAM p\nVAR\n" + "".join("  i%d : F%d;\n" % (k, k) for k in range(n)) + "END_VAR\n" + \
+            "".join("i%d();\n" % k for k in range(n)) + "END_PROGRAM\n"
+    return "PROGRAM p\nVAR\n" + "".join("  v%d : INT := %d;\n" % (k, k) for k in range(n)) + "END_VAR\n" + \
+        "".join("v%d := v%d + %d;\n" % (k, (k + 1) % n, k) for k in range(n)) + "END_PROGRAM\n"
